@@ -315,7 +315,7 @@ async fn run_case(c: &Cfg, run: u32, rng: &mut Rng) -> Result<Outcome, String> {
   connector.connect(&ep).await.map_err(|e| format!("connect: {e}"))?;
   if c.first == FirstSend::AfterHandshake || c.pair == Pair::RouterDealer {
     // wait until both sides report a completed handshake (or inproc: connect returned)
-    let ok = util::wait_event(&mon_a, Duration::from_secs(3), |e| matches!(e, SocketEvent::HandshakeSucceeded { .. } | SocketEvent::Connected { .. } | SocketEvent::Accepted { .. })).await;
+    let ok = util::wait_event(&mon_a, util::scaled(Duration::from_secs(3)), |e| matches!(e, SocketEvent::HandshakeSucceeded { .. } | SocketEvent::Connected { .. } | SocketEvent::Accepted { .. })).await;
     let _ = ok;
     tokio::time::sleep(Duration::from_millis(if c.pair == Pair::RouterDealer { 150 } else { 60 })).await;
   }
@@ -368,7 +368,7 @@ async fn run_case(c: &Cfg, run: u32, rng: &mut Rng) -> Result<Outcome, String> {
         }
       }
     }
-    match tokio::time::timeout(Duration::from_secs(6), server).await {
+    match tokio::time::timeout(util::scaled(Duration::from_secs(6)), server).await {
       Ok(Ok((got, replies))) => {
         out.received = got;
         out.back_sent = replies;
@@ -386,7 +386,7 @@ async fn run_case(c: &Cfg, run: u32, rng: &mut Rng) -> Result<Outcome, String> {
       let t0 = Instant::now();
       let mut last = 0;
       let mut same = 0;
-      while t0.elapsed() < Duration::from_secs(3) && !sender_done.load(Ordering::SeqCst) {
+      while t0.elapsed() < util::scaled(Duration::from_secs(3)) && !sender_done.load(Ordering::SeqCst) {
         tokio::time::sleep(Duration::from_millis(20)).await;
         let now = sent_log.lock().len();
         if now == last {
@@ -402,13 +402,13 @@ async fn run_case(c: &Cfg, run: u32, rng: &mut Rng) -> Result<Outcome, String> {
     }
     let strip_identity = tb == SocketType::Router;
     let mut last_progress = Instant::now();
-    let limit = Duration::from_secs(6);
+    let limit = util::scaled(Duration::from_secs(6));
     let mut k = 0u32;
     loop {
       let want = oracles::accepted_ids(&sent_log.lock()).len();
       if sender_done.load(Ordering::SeqCst) && out.received.len() >= want {
         // one more short read: nothing spurious may follow
-        if let Ok(Ok(m)) = tokio::time::timeout(Duration::from_millis(80), b.recv_multipart()).await {
+        if let Ok(Ok(m)) = tokio::time::timeout(util::scaled(Duration::from_millis(80)), b.recv_multipart()).await {
           let mut v = to_vecs(m);
           if strip_identity && !v.is_empty() {
             v.remove(0);
@@ -441,7 +441,7 @@ async fn run_case(c: &Cfg, run: u32, rng: &mut Rng) -> Result<Outcome, String> {
             out.stalled = Some(format!("no progress for {:?}: received {} of {} accepted (sender done: {})", limit, out.received.len(), want, sender_done.load(Ordering::SeqCst)));
             break;
           }
-          if disconnected.load(Ordering::SeqCst) && last_progress.elapsed() > Duration::from_millis(800) {
+          if disconnected.load(Ordering::SeqCst) && last_progress.elapsed() > util::scaled(Duration::from_millis(800)) {
             break;
           }
         }
@@ -454,7 +454,7 @@ async fn run_case(c: &Cfg, run: u32, rng: &mut Rng) -> Result<Outcome, String> {
     out.send_errors = send_errs.lock().clone();
   }
   out.disconnected = disconnected.load(Ordering::SeqCst);
-  let _ = tokio::time::timeout(Duration::from_secs(12), ctx.term()).await;
+  let _ = tokio::time::timeout(util::scaled(Duration::from_secs(12)), ctx.term()).await;
   Ok(out)
 }
 
@@ -497,14 +497,34 @@ fn main() {
   let budget = Duration::from_secs(if args.thorough() { 900 } else { 75 });
   let t0 = Instant::now();
   let mut i = 0u64;
+  // (miri) a few tiny inproc histories meant to run inside Miri: the whole socket stack (core actors, orchestrator,
+  // ready-pipe queue, inproc reader) under its data-race detector, random preemption and weak-memory emulation
+  let miri_cases = if args.only.as_deref() == Some("miri") { Some(args.get_usize("cases", 3)) } else { None };
+  let mut miri_done = 0usize;
   let mut rts: std::collections::HashMap<usize, tokio::runtime::Runtime> = std::collections::HashMap::new();
-  while t0.elapsed() < budget {
-    let c = gen_cfg(&mut rng, args.thorough());
+  while miri_cases.map_or(t0.elapsed() < budget, |m| miri_done < m) {
+    let mut c = gen_cfg(&mut rng, args.thorough());
+    if miri_cases.is_some() {
+      let k = args.get_usize("first", 0) + miri_done;
+      miri_done += 1;
+      c.pair = [Pair::PushPull, Pair::RouterDealer, Pair::ReqRep, Pair::DealerRouter][k % 4];
+      c.tr = Transport::Inproc;
+      c.n = 6;
+      c.family = [Family::Small, Family::MixedMultipart][(k / 4) % 2];
+      c.sndhwm = [1, 8][(k / 2) % 2];
+      c.rcvhwm = c.sndhwm;
+      c.workers = 2;
+      c.first = [FirstSend::AfterHandshake, FirstSend::RightAfterConnect][(k / 8) % 2];
+      c.pacing = Pacing::Greedy;
+      c.cork = false;
+      c.throttle = false;
+      c.sender_binds = k % 3 == 0;
+    }
     let seed = rng.next();
     let run = (seed & 0x7FFF_FFFF) as u32;
     let mut r2 = Rng::new(seed);
     let rt = rts.entry(c.workers).or_insert_with(|| util::runtime(c.workers));
-    let res = rt.block_on(async { tokio::time::timeout(Duration::from_secs(60), run_case(&c, run, &mut r2)).await });
+    let res = rt.block_on(async { tokio::time::timeout(util::scaled(Duration::from_secs(60)), run_case(&c, run, &mut r2)).await });
     i += 1;
     match res {
       Err(_) => rep.inconclusive(format!("scenario watchdog (60 s) fired: {:?}", c)),
